@@ -3,12 +3,29 @@
 set -u
 P="$1"; PROF="$2"; N="${3:-2000}"; FROM="${4:-1}"
 S=$(mktemp -d /tmp/seedtest-XXXX)
-cd /repo || exit 2
+# the change is applied to a scratch worktree of /repo HEAD (VERIF_REPO), so that /repo itself - which
+# background runs build from - is never touched
+WT=$(mktemp -d /tmp/seedwt-XXXX); rmdir $WT
+git -C /repo worktree add -q --detach $WT HEAD || exit 2
+trap 'git -C /repo worktree remove --force $WT 2>/dev/null; rm -rf $WT $S' EXIT
+cd $WT || exit 2
 if [[ "$P" == -R:* ]]; then git show "${P#-R:}" | git apply -R || { echo "cannot revert"; exit 2; }
 else git apply "$P" || { echo "patch does not apply"; exit 2; }; fi
-/verif/build.sh "$S" > "$S/build.log" 2>&1; rc=$?
-git -C /repo checkout -- . 
-[ $rc -ne 0 ] && { cat "$S/build.log"; rm -rf "$S"; exit 2; }
+VERIF_REPO=$WT /verif/build.sh "$S" ${RACE:+race} > "$S/build.log" 2>&1; rc=$?
+[ $rc -ne 0 ] && { cat "$S/build.log"; exit 2; }
+if [ -n "${RACE:-}" ]; then
+  # free -race mode: count race reports whose two accesses are both in tsuna/gohbase code
+  cd /tmp; W=${W:-8}
+  for w in $(seq 0 $((W-1))); do
+    ( GOMAXPROCS=4 "$S/bin/simworker-race" -free -profile "$PROF" -from $((FROM+w)) -stride $W -n $((N/W)) -prop __races_only__ > "$S/out.$w" 2> "$S/err.$w" ) &
+  done
+  wait
+  runs=$(cat "$S"/out.* | grep SUMMARY | cut -c9- | jq -s 'map(.runs)|add')
+  races=$(cat "$S"/err.* | awk '/^WARNING: DATA RACE/{inr=1;n=0;ok=1;next} inr&&/ by goroutine /{getline f; n++; if (f !~ /github.com\/tsuna\/gohbase[.\/(]/ || f ~ /verifsimrt/) ok=0; if(n==2){ if(ok) c++; inr=0 } } END{print c+0}')
+  echo "{\"runs\":$runs,\"nontrivial\":null,\"violations\":$races}"
+  cat "$S"/err.* | grep -A3 -m1 "^WARNING: DATA RACE" | tail -2 | tr -s ' \n' ' ' | sed 's/^/seed ? C09 data-race: /' | cut -c1-200
+  exit 0
+fi
 cd /tmp
 W=${W:-8}
 for w in $(seq 0 $((W-1))); do
